@@ -353,6 +353,10 @@ func checkC13(P *Prog, r *Result) {
 	shareRule(P, r, checkC10, "C10/tag-priority", nil, "C13/same-path-key", 1)
 	shareRule(P, r, checkC03, "C03/field-name-rule", nil, "C13/same-field-name-rule", 2)
 	shareRule(P, r, checkC10, "C10/segment-source", nil, "C13/same-path-segment", 1)
+	// Parse reads a field under the key Validate files its issues under: every provider resolves (field, schema key) to
+	// own Get(K), K with K from the one tag-priority function - a provider that tries the schema key first reads a
+	// sibling's value whenever a schema key equals another field's zog tag (C14's rule)
+	shareRule(P, r, checkC14, "C14/getbyfield-agreement", nil, "C13/parse-reads-the-key-validate-names", 3)
 }
 
 // deferredUnits: the closures and relevant helpers the node function itself defers.
